@@ -115,7 +115,22 @@ def main():
         res.append(safe(lambda: (isinstance(np.zeros(3), SH_M), isinstance(np.zeros(4), SH_M))))
         return res
 
-    WL = {"pytree": wl_pytree, "array": wl_array, "calls": wl_calls, "question": wl_question, "nested": wl_nested}
+    SH_ABA, SH_AA, SH_BAB = Float[A, "a *b a"], Float[A, "a a"], Float[A, "b a b"]
+
+    def wl_toplevel():
+        # checks OUTSIDE every context: each one starts from no bindings and must not see another thread's half-made ones;
+        # annotations that use a name twice, so that a single check reads back what it has just bound
+        res = []
+        res.append(safe(lambda: isinstance(np.zeros((3, 5, 3)), SH_ABA)))
+        res.append(safe(lambda: isinstance(np.zeros((3, 5, 4)), SH_ABA)))
+        res.append(safe(lambda: isinstance(np.zeros((4, 4)), SH_AA)))
+        res.append(safe(lambda: isinstance(np.zeros((4, 5)), SH_AA)))
+        res.append(safe(lambda: isinstance(np.zeros((2, 4, 2)), SH_BAB)))
+        res.append(safe(lambda: isinstance(np.zeros((2, 4, 3)), SH_BAB)))
+        res.append(B())
+        return res
+
+    WL = {"pytree": wl_pytree, "array": wl_array, "calls": wl_calls, "question": wl_question, "nested": wl_nested, "toplevel": wl_toplevel}
 
     class Sched:
         def __init__(self, n, schedule):
